@@ -8,6 +8,10 @@
 // transactions) into queues whose free slots are few: the model says admission does not depend on any size, so
 // a size-aware implementation (splitting, truncating, refusing) shows as a difference.  Those cases run on the
 // on-disk badger store (the production configuration; the in-memory one refuses values above 1 MiB).
+// Hand-out requests may state a byte budget (GetNextBatchRequest.MaxBytes): the model and the property say the oldest batch
+// is handed out whole whatever the budget; the oracle follows the queue at transaction level.
+// A share of the cases are LONG RUNS: the number of batches accepted since the store was last empty passes a power of
+// 10 / 16 with batches from both sides of it pending, then the process is restarted.
 // The queue bound (maxQueueSize) is a parameter of every PROCESS START: a restart / crash recovery may start the new
 // Sequencer with another bound than the one the records were written under (unchanged, unlimited, larger, equal to,
 // smaller than the number of batches pending at that moment, 1).
@@ -52,6 +56,8 @@ var foreignID = []byte("c10-other")
 // Bad: the request carries a foreign chain id.  For T = crash: Op = submit | next is the operation the
 // process dies in, N = number of its datastore writes that became durable before death.
 // For T = restart | crash: Max = maxQueueSize of the process that is started (absent = the same bound as before).
+// For T = next (and crash with Op = next): MB = GetNextBatchRequest.MaxBytes, the byte budget the consumer states
+// (0 = none; the block manager passes 0 today, another consumer - or tomorrow's block manager - need not).
 type Item struct {
 	T   string `json:"t"`
 	B   int    `json:"b,omitempty"`
@@ -59,6 +65,7 @@ type Item struct {
 	Op  string `json:"op,omitempty"`
 	N   int    `json:"n,omitempty"`
 	Max *int   `json:"max,omitempty"`
+	MB  uint64 `json:"mb,omitempty"`
 }
 
 func ip(v int) *int { return &v }
@@ -284,6 +291,154 @@ func genBigHistory(r *rand.Rand, npool, nsmall, max int) []Item {
 	return h
 }
 
+// ---- long runs: the acceptance counter passes a width boundary ---------------------------------------------------
+// A queue that has been running for a while: the number of batches accepted since the store was last empty passes a
+// power of a common radix (10, 16, 100, 256; thorough also 1000, 4096) while some batches accepted below it and some
+// accepted at / above it are still pending - and then the process is restarted (or dies).  Whatever an implementation
+// derives from a per-batch counter (record keys, file names, sort order) changes its width there.
+var longBoundsQuick = []int{10, 16, 16, 16, 16, 10, 16, 100, 16, 256}
+var longBoundsThorough = []int{10, 16, 16, 100, 256, 256, 16, 1000, 4096, 100}
+var longMaxes = []int{0, 0, 1000, 5, 8, 12, 3}
+
+func genLongHistory(r *rand.Rand, npool, max int, thorough bool) []Item {
+	B := longBoundsQuick[r.Intn(len(longBoundsQuick))]
+	if thorough {
+		B = longBoundsThorough[r.Intn(len(longBoundsThorough))]
+	}
+	ceil := max // working ceiling for the number of pending batches
+	if ceil == 0 || ceil > 12 {
+		ceil = 4 + r.Intn(9)
+	}
+	if ceil < 2 {
+		ceil = 2
+	}
+	lim := func(x int) int {
+		if x > 4 {
+			return 4
+		}
+		if x < 1 {
+			return 1
+		}
+		return x
+	}
+	w := 1 + r.Intn(lim(ceil-1)) // accepted just below the boundary and left pending
+	d := 1 + r.Intn(lim(ceil-w)) // accepted at / above the boundary
+	var h []Item
+	est, acc := 0, 0
+	rr := r.Intn(npool)
+	roundRobin := r.Intn(2) == 0
+	pick := func() int {
+		if roundRobin {
+			rr++
+			return 1 + rr%npool
+		}
+		return 1 + r.Intn(npool)
+	}
+	midRestart := -1
+	if r.Intn(4) == 0 && B-w > 2 {
+		midRestart = 1 + r.Intn(B-w-1) // a restart on the way (with something pending, so that numbering goes on)
+	}
+	nextPct := 30 + r.Intn(30)
+	for acc < B-w {
+		switch {
+		case acc == midRestart && est > 0:
+			h = append(h, Item{T: "restart"})
+			midRestart = -1
+		case est > 0 && (est >= ceil || (r.Intn(100) < nextPct && !(acc == midRestart && est == 1))):
+			h = append(h, Item{T: "next"})
+			est--
+		default:
+			h = append(h, Item{T: "submit", B: pick()})
+			est++
+			acc++
+		}
+	}
+	for est+w+d > ceil && est > 0 {
+		h = append(h, Item{T: "next"})
+		est--
+	}
+	for i := 0; i < w+d; i++ {
+		h = append(h, Item{T: "submit", B: pick()})
+		est++
+	}
+	// the process start
+	bound := func() *int {
+		if r.Intn(3) > 0 {
+			return nil
+		}
+		return drawBound(r, max, est)
+	}
+	switch r.Intn(5) {
+	case 0:
+		h = append(h, Item{T: "crash", Op: "next", N: r.Intn(2), Max: bound()})
+	case 1:
+		h = append(h, Item{T: "crash", Op: "submit", B: pick(), N: r.Intn(2), Max: bound()})
+	default:
+		h = append(h, Item{T: "restart", Max: bound()})
+	}
+	// a short tail
+	for i := r.Intn(8); i > 0; i-- {
+		x := r.Intn(100)
+		switch {
+		case x < 50:
+			h = append(h, Item{T: "next"})
+		case x < 85:
+			h = append(h, Item{T: "submit", B: pick()})
+		default:
+			h = append(h, Item{T: "restart"})
+		}
+	}
+	return h
+}
+
+// ---- the consumer's byte budget ----------------------------------------------------------------------------------------
+// GetNextBatchRequest.MaxBytes of the next calls of a history, drawn from a PRNG stream of its own (so that the items
+// of a history are what they were without budgets).  Per case: no call states a budget (half of the cases), some do,
+// most do.  A budget is drawn relative to the sizes in the pool: 1 byte, the first transaction of a batch, one byte
+// less than / exactly / one byte more than a batch's payload, a usual blob limit, practically unlimited.
+func drawBudgets(seed int64, c int, pool [][][]byte, h []Item) {
+	r := rand.New(rand.NewSource(seed*1000003 + int64(c) + 0x5bd1e995))
+	pct := []int{0, 0, 25, 70}[r.Intn(4)]
+	for i := range h {
+		if !(h[i].T == "next" || (h[i].T == "crash" && h[i].Op == "next")) || r.Intn(100) >= pct {
+			continue
+		}
+		b := pool[r.Intn(len(pool))]
+		pl := uint64(payloadOf(b))
+		var mb uint64
+		switch r.Intn(8) {
+		case 0:
+			mb = 1
+		case 1:
+			mb = uint64(len(b[0]))
+		case 2:
+			if pl > 1 {
+				mb = pl - 1
+			} else {
+				mb = 1
+			}
+		case 3:
+			mb = pl
+		case 4:
+			mb = pl + 1
+		case 5:
+			mb = uint64(sizeLimits[r.Intn(len(sizeLimits))])
+		case 6:
+			mb = 1 << 40
+		default:
+			if pl > 2 {
+				mb = 1 + uint64(r.Int63n(int64(pl)))
+			} else {
+				mb = 2
+			}
+		}
+		if mb == 0 {
+			mb = 1
+		}
+		h[i].MB = mb
+	}
+}
+
 func payloadOf(b [][]byte) int {
 	n := 0
 	for _, tx := range b {
@@ -450,6 +605,7 @@ type out struct {
 	changed bool
 	// next, when the batch handed out is no pool batch: it is a proper contiguous part of pool batch partOf (oracle only)
 	partOf, partLen int
+	txs             [][]byte // next: the transactions handed out (oracle only)
 }
 
 func (o out) coq() string {
@@ -611,7 +767,7 @@ func (r *runner) submit(it Item) out {
 }
 
 func (r *runner) next(it Item) out {
-	resp, err := r.seq.GetNextBatch(r.ctx, coresequencer.GetNextBatchRequest{Id: r.id(it.Bad)})
+	resp, err := r.seq.GetNextBatch(r.ctx, coresequencer.GetNextBatchRequest{Id: r.id(it.Bad), MaxBytes: it.MB})
 	switch {
 	case errors.Is(err, single.ErrInvalidId):
 		return out{kind: "invalid"}
@@ -620,7 +776,7 @@ func (r *runner) next(it Item) out {
 	case len(resp.Batch.Transactions) == 0:
 		return out{kind: "empty"}
 	}
-	o := out{kind: "batch", id: r.idOf(resp.Batch.Transactions)}
+	o := out{kind: "batch", id: r.idOf(resp.Batch.Transactions), txs: resp.Batch.Transactions}
 	if o.id == 999999 {
 		o.partOf, o.partLen = r.partOf(resp.Batch.Transactions), len(resp.Batch.Transactions)
 	}
@@ -680,7 +836,7 @@ func (r *runner) exec(it Item) out {
 			in = r.submit(Item{T: "submit", B: it.B})
 			in.changed = r.imageChangedSince(before)
 		} else {
-			in = r.next(Item{T: "next"})
+			in = r.next(Item{T: "next", MB: it.MB})
 		}
 		r.cds.FailAfter = -1
 		r.max = boundAfter(r.max, it) // the new process's maxQueueSize
@@ -709,6 +865,30 @@ type oracle struct {
 	accepted int
 	guardOK  bool
 	hashes   map[int][]byte
+	// transaction-level view: headOff = how many transactions of pending[0] have been handed out already (0 unless a
+	// submission was handed out in parts); a partial hand-out is a symptom of its own (soft), but judging goes on at
+	// transaction level, and a graver symptom found later (order, loss) is what gets reported
+	headOff  int
+	soft     string
+	softWhat string
+	// acceptance numbers: pendIdx[i] = how many batches had been accepted before pending[i] since the store was last
+	// empty at a process start (what a per-batch sequence counter of any implementation would say); -1 = unknown (legacy record)
+	pendIdx []int
+	nextIdx int
+	wideRst bool // a restart / crash happened while the acceptance numbers of the pending batches had different widths (decimal or hex digits)
+	maxIdx  int
+	// at the first out-of-order hand-out: was the batch handed out the pending one with the smallest content hash?
+	gotMinHash bool
+}
+
+// number of digits of v in the radix
+func width(v, radix int) int {
+	w := 1
+	for v >= radix {
+		v /= radix
+		w++
+	}
+	return w
 }
 
 func (o *oracle) hashOf(id int) []byte {
@@ -763,6 +943,16 @@ func (o *oracle) noteRestart(it Item) {
 		o.lowStart = true
 	}
 	o.max = nb
+	if n := len(o.pendIdx); n >= 2 && o.pendIdx[0] >= 0 {
+		a, b := o.pendIdx[0], o.pendIdx[n-1]
+		if width(a, 10) != width(b, 10) || width(a, 16) != width(b, 16) {
+			o.wideRst = true
+			o.starts["start:pending-acceptance-numbers-of-different-width"]++
+		}
+	}
+	if len(o.pending) == 0 {
+		o.nextIdx = 0 // the store is empty: numbering may start over
+	}
 	for i := 0; i+1 < len(o.pending); i++ {
 		if bytes.Compare(o.hashOf(o.pending[i]), o.hashOf(o.pending[i+1])) >= 0 {
 			o.unordRst = true
@@ -777,7 +967,25 @@ func (o *oracle) enqueue(b int) {
 		}
 	}
 	o.pending = append(o.pending, b)
+	o.pendIdx = append(o.pendIdx, o.nextIdx)
+	if o.nextIdx > o.maxIdx {
+		o.maxIdx = o.nextIdx
+	}
+	o.nextIdx++
 	o.accepted++
+}
+
+// the oldest pending batch has been handed out completely
+func (o *oracle) pop() {
+	o.pending = o.pending[1:]
+	if len(o.pendIdx) > 0 {
+		o.pendIdx = o.pendIdx[1:]
+	}
+	o.headOff = 0
+}
+
+func isPrefix(txs, of [][]byte) bool {
+	return len(txs) < len(of) && sameBatch(txs, of[:len(txs)])
 }
 
 func (o *oracle) observe(idx int, it Item, got out) {
@@ -821,20 +1029,43 @@ func (o *oracle) observe(idx int, it Item, got out) {
 			}
 		case got.kind == "empty":
 			if len(o.pending) > 0 {
-				o.fail("next-empty-but-pending", fmt.Sprintf("item %d: nothing handed out, but %v were accepted and never handed out", idx, o.pending))
+				o.fail("next-empty-but-pending", fmt.Sprintf("item %d: nothing handed out, but %v were accepted and never handed out", idx, short(o.pending)))
 			}
 		case got.kind == "batch":
+			var rem [][]byte // what is still to be handed out of the oldest pending batch
+			if len(o.pending) > 0 {
+				rem = o.pool[o.pending[0]-1][o.headOff:]
+			}
 			switch {
-			case len(o.pending) > 0 && o.pending[0] == got.id:
-				o.pending = o.pending[1:]
+			case len(o.pending) > 0 && o.headOff == 0 && o.pending[0] == got.id:
+				o.pop()
+			case len(o.pending) > 0 && got.txs != nil && o.headOff > 0 && sameBatch(got.txs, rem):
+				o.pop() // the rest of a submission that was handed out in parts
+			case contains(o.pending, got.id):
+				// a whole batch that is pending (even if it also is the beginning of the oldest one): out of order
+				o.gotMinHash = true
+				for _, p := range o.pending {
+					if bytes.Compare(o.hashOf(p), o.hashOf(got.id)) < 0 {
+						o.gotMinHash = false
+					}
+				}
+				o.fail("next-out-of-order", fmt.Sprintf("item %d: handed out batch %d, but the oldest pending is %d%s (pending %v, accepted as numbers %v since the store was last empty)",
+					idx, got.id, o.pending[0], o.headNote(), short(o.pending), short(o.pendIdx)))
+			case len(o.pending) > 0 && got.txs != nil && len(got.txs) > 0 && isPrefix(got.txs, rem):
+				// an accepted submission is handed out as the one batch it was: a symptom, but the transactions are the
+				// right ones in the right order - go on judging at transaction level
+				if o.soft == "" {
+					o.soft = "submission-handed-out-in-parts"
+					o.softWhat = fmt.Sprintf("item %d (byte budget %d): handed out %d of the %d transactions of batch %d (%s) as a batch of their own (pending %v)",
+						idx, it.MB, len(got.txs), len(o.pool[o.pending[0]-1]), o.pending[0], o.shape(o.pending[0]), short(o.pending))
+				}
+				o.headOff += len(got.txs)
 			case got.partOf > 0:
 				// an accepted submission is handed out as the one batch it was, a rejected one not at all
 				o.fail("submission-handed-out-in-parts", fmt.Sprintf("item %d: handed out %d of the %d transactions of batch %d (%s) as a batch of their own (pending %v)",
-					idx, got.partLen, len(o.pool[got.partOf-1]), got.partOf, o.shape(got.partOf), o.pending))
-			case contains(o.pending, got.id):
-				o.fail("next-out-of-order", fmt.Sprintf("item %d: handed out batch %d, but the oldest pending is %d (pending %v)", idx, got.id, o.pending[0], o.pending))
+					idx, got.partLen, len(o.pool[got.partOf-1]), got.partOf, o.shape(got.partOf), short(o.pending)))
 			default:
-				o.fail("next-not-pending", fmt.Sprintf("item %d: handed out batch %d which is not pending (pending %v): handed out twice or never accepted", idx, got.id, o.pending))
+				o.fail("next-not-pending", fmt.Sprintf("item %d: handed out batch %d which is not pending (pending %v): handed out twice or never accepted", idx, got.id, short(o.pending)))
 			}
 		default:
 			o.fail("next-unexpected-error", fmt.Sprintf("item %d: next returned %s", idx, got.kind))
@@ -847,12 +1078,39 @@ func (o *oracle) observe(idx int, it Item, got out) {
 	}
 }
 
+// what failed, in words
+func (o *oracle) report() string {
+	switch {
+	case o.symptom == "":
+		return o.softWhat
+	case o.soft != "":
+		return o.softWhat + "; THEN " + o.what
+	}
+	return o.what
+}
+
+func (o *oracle) headNote() string {
+	if o.headOff > 0 {
+		return fmt.Sprintf(" (its last %d transactions, the first %d were handed out before)", len(o.pool[o.pending[0]-1])-o.headOff, o.headOff)
+	}
+	return ""
+}
+
 // "3 transactions, 2100000 bytes"
 func (o *oracle) shape(id int) string {
 	if id < 1 || id > len(o.pool) {
 		return "no transactions"
 	}
 	return fmt.Sprintf("%d transactions, %d bytes", len(o.pool[id-1]), payloadOf(o.pool[id-1]))
+}
+
+// a list in a message: at most 24 entries
+func short(l []int) string {
+	if len(l) <= 24 {
+		return fmt.Sprint(l)
+	}
+	s := fmt.Sprint(l[:24])
+	return fmt.Sprintf("%s ... %d in all, the last %v]", s[:len(s)-1], len(l), l[len(l)-1])
 }
 
 func contains(l []int, x int) bool {
@@ -881,7 +1139,7 @@ func (o *oracle) observeCrash(idx int, it Item, wrote bool, got out) {
 		if it.Op == "submit" {
 			o.observe(idx, Item{T: "submit", B: it.B}, *got.inner)
 		} else {
-			o.observe(idx, Item{T: "next"}, *got.inner)
+			o.observe(idx, Item{T: "next", MB: it.MB}, *got.inner)
 		}
 		if o.symptom != "" {
 			return
@@ -894,7 +1152,11 @@ func (o *oracle) observeCrash(idx int, it Item, wrote bool, got out) {
 func (o *oracle) signature() string {
 	switch o.symptom {
 	case "":
-		return ""
+		return o.soft // a submission handed out in parts, everything else in order
+	}
+	if o.soft != "" {
+		// the graver symptom that followed a partial hand-out (the remainder lost, overtaken, handed out twice ...)
+		return "after-partial-hand-out:" + o.symptom
 	}
 	if o.lowStart {
 		switch o.symptom {
@@ -905,6 +1167,11 @@ func (o *oracle) signature() string {
 	}
 	switch o.symptom {
 	case "next-out-of-order":
+		if o.wideRst && !(o.unordRst && o.gotMinHash) {
+			// the pending batches' acceptance numbers had different widths at a process start, and what came out first is
+			// not what a reload in content-hash order would have produced
+			return "restart-with-pending-numbers-of-different-width:next-out-of-order"
+		}
 		if o.unordRst {
 			return "restart-with-pending-not-in-hash-order"
 		}
@@ -922,6 +1189,7 @@ func (o *oracle) signature() string {
 // ---- one sequential case --------------------------------------------------------------------------
 
 type caseResult struct {
+	keys   []string // the real datastore keys of the recorded Puts
 	outs   []out
 	image  []string
 	log    []string
@@ -995,6 +1263,9 @@ func runCase(pool [][][]byte, max int, hist []Item, legacy ...int) (res *caseRes
 	lg := append([]int{}, legacy...)
 	sort.Slice(lg, func(i, j int) bool { return bytes.Compare(realHash(pool[lg[i]-1]), realHash(pool[lg[j]-1])) < 0 })
 	or.pending = lg
+	for range lg {
+		or.pendIdx = append(or.pendIdx, -1) // no acceptance number is known for a record of the old scheme
+	}
 	for i, it := range withClosing(hist) {
 		before := r.cds.Len()
 		o := r.exec(it)
@@ -1008,7 +1279,7 @@ func runCase(pool [][][]byte, max int, hist []Item, legacy ...int) (res *caseRes
 	if or.symptom == "" && len(or.pending) > 0 {
 		or.fail("next-empty-but-pending", "closing: accepted batches never handed out")
 	}
-	res.sig, res.what = or.signature(), or.what
+	res.sig, res.what = or.signature(), or.report()
 	dump, err := crashds.Dump(r.ctx, r.kv)
 	if err != nil {
 		res.err = err
@@ -1016,7 +1287,7 @@ func runCase(pool [][][]byte, max int, hist []Item, legacy ...int) (res *caseRes
 	}
 	if or.symptom == "" && len(dump) > 0 {
 		or.fail("drained-queue-leaves-records", fmt.Sprintf("%d records left in the datastore after everything was handed out", len(dump)))
-		res.sig, res.what = or.signature(), or.what
+		res.sig, res.what = or.signature(), or.report()
 	}
 	for _, e := range dump {
 		res.image = append(res.image, fmt.Sprintf("(%s, %s)", vgen.N(projKey(e.Key)), vgen.N(r.projVal(e.Value))))
@@ -1027,6 +1298,7 @@ func runCase(pool [][][]byte, max int, hist []Item, legacy ...int) (res *caseRes
 				res.log = append(res.log, "WDel "+vgen.N(projKey(p.Key)))
 			} else {
 				res.log = append(res.log, fmt.Sprintf("WPut %s %s", vgen.N(projKey(p.Key)), vgen.N(r.projVal(p.Value))))
+				res.keys = append(res.keys, p.Key)
 				if !keyMatchesValue(p.Key, p.Value) {
 					res.log = append(res.log, "WDel 444444%N") // key suffix is not the content hash: force a mismatch
 				}
@@ -1053,22 +1325,45 @@ func histCoq(max int, h []Item) string {
 	for _, it := range h {
 		switch it.T {
 		case "submit":
-			items = append(items, fmt.Sprintf("VOp (USubmit %s %s)", vgen.Bool(!it.Bad), sub(it)))
+			items = append(items, fmt.Sprintf("BOp (BSubmit %s %s)", vgen.Bool(!it.Bad), sub(it)))
 		case "next":
-			items = append(items, fmt.Sprintf("VOp (UNext %s)", vgen.Bool(!it.Bad)))
+			items = append(items, fmt.Sprintf("BOp (BNext %s %s)", vgen.Bool(!it.Bad), vgen.N(it.MB)))
 		case "restart":
 			max = boundAfter(max, it)
-			items = append(items, "VStart "+vgen.N(uint64(max)))
+			items = append(items, "BStart "+vgen.N(uint64(max)))
 		case "crash":
 			max = boundAfter(max, it)
 			if it.Op == "submit" {
-				items = append(items, fmt.Sprintf("VCrash (USubmit true %s) %s %s", sub(it), vgen.Nat(it.N), vgen.N(uint64(max))))
+				items = append(items, fmt.Sprintf("BCrash (BSubmit true %s) %s %s", sub(it), vgen.Nat(it.N), vgen.N(uint64(max))))
 			} else {
-				items = append(items, fmt.Sprintf("VCrash (UNext true) %s %s", vgen.Nat(it.N), vgen.N(uint64(max))))
+				items = append(items, fmt.Sprintf("BCrash (BNext true %s) %s %s", vgen.N(it.MB), vgen.Nat(it.N), vgen.N(uint64(max))))
 			}
 		}
 	}
 	return vgen.List(items)
+}
+
+// key samples for Model/QueueKeys.v: the sequence number a real record key was projected to (projKey) and the first
+// 18 bytes of that key below the queue's prefix ("s" + 16 digits + "-"), one sample per distinct number
+const keyPfx = "/batches/"
+
+func noteKeySample(samples map[uint64]string, k string) {
+	sq := projKey(k)
+	if sq >= 700000 && sq <= 800000 { // a marker: the main comparison reports it
+		return
+	}
+	if _, ok := samples[sq]; ok || !strings.HasPrefix(k, keyPfx) {
+		return
+	}
+	head := k[len(keyPfx):]
+	if len(head) > 18 {
+		head = head[:18]
+	}
+	var bs []string
+	for i := 0; i < len(head); i++ {
+		bs = append(bs, strconv.Itoa(int(head[i])))
+	}
+	samples[sq] = fmt.Sprintf("(%s, [%s]%%N)", vgen.N(sq), strings.Join(bs, "; "))
 }
 
 func poolHex(pool [][][]byte) [][]string {
@@ -1357,6 +1652,35 @@ func sizeStats(res *vgen.Result, pool [][][]byte, max int, h []Item, cr *caseRes
 	}
 }
 
+// shrinkHist removes runs of items (halving the run length down to single items, repeated until nothing changes)
+// while [fails] keeps returning true.  Long histories make vgen.Shrink's one-item-at-a-time passes quadratic in
+// real runs of the sequencer; [budget] bounds the number of runs (deterministically: a count, not a clock).
+func shrinkHist(items []Item, budget int, fails func([]Item) bool) []Item {
+	cur := items
+	try := func(cand []Item) bool {
+		if budget <= 0 {
+			return false
+		}
+		budget--
+		return fails(cand)
+	}
+	for changed := true; changed && budget > 0; {
+		changed = false
+		for size := len(cur) / 2; size >= 1; size /= 2 {
+			for i := 0; i+size <= len(cur); {
+				cand := append(append([]Item{}, cur[:i]...), cur[i+size:]...)
+				if try(cand) {
+					cur = cand
+					changed = true
+				} else {
+					i += size
+				}
+			}
+		}
+	}
+	return cur
+}
+
 // ---- driver ----------------------------------------------------------------------------------------
 
 func TestVerif(t *testing.T) {
@@ -1395,6 +1719,9 @@ func TestVerif(t *testing.T) {
 			case 2, 7:
 				kind = "size" // sequential, with size-boundary submissions (goes to Coq like "seq")
 			}
+			if c%20 == 6 {
+				kind = "long" // sequential, a long run whose acceptance counter passes a width boundary (goes to Coq like "seq")
+			}
 			jobs = append(jobs, job{rp: Replay{Kind: kind, Seed: e.Seed, Case: c}, gen: true})
 		}
 	}
@@ -1408,6 +1735,7 @@ func TestVerif(t *testing.T) {
 		scratchDir = e.Out
 	}
 	var cases, defsAll []string
+	keySamples := map[uint64]string{}
 	distinct := map[string]bool{}
 	shrunk := map[string]int{}
 	ji := 0
@@ -1433,6 +1761,14 @@ func TestVerif(t *testing.T) {
 			pool = poolFromHex(rp.Pool)
 			rp.Max = sizeMaxes[r.Intn(len(sizeMaxes))]
 			rp.History = genBigHistory(r, len(pool), nsmall, rp.Max)
+			drawBudgets(rp.Seed, rp.Case, pool, rp.History)
+		} else if j.gen && rp.Kind == "long" {
+			r := caseRng(rp.Seed, rp.Case)
+			pool = genPool(r)
+			rp.Max = longMaxes[r.Intn(len(longMaxes))]
+			rp.Pool = poolHex(pool)
+			rp.History = genLongHistory(r, len(pool), rp.Max, e.Tier == "thorough")
+			drawBudgets(rp.Seed, rp.Case, pool, rp.History)
 		} else if j.gen {
 			r := caseRng(rp.Seed, rp.Case)
 			pool = genPool(r)
@@ -1447,6 +1783,7 @@ func TestVerif(t *testing.T) {
 					rp.Max = len(rp.Legacy) // a store written under the same bound never holds more
 				}
 			}
+			drawBudgets(rp.Seed, rp.Case, pool, rp.History)
 		} else {
 			pool = poolFromHex(rp.Pool)
 		}
@@ -1469,6 +1806,8 @@ func TestVerif(t *testing.T) {
 		case needsDisk(pool):
 			res.Count("case:sequential-size-boundary")
 			sizeStats(res, pool, rp.Max, rp.History, cr)
+		case rp.Kind == "long":
+			res.Count("case:sequential-long-run")
 		default:
 			res.Count("case:sequential")
 		}
@@ -1481,6 +1820,9 @@ func TestVerif(t *testing.T) {
 			res.Count(k)
 			if it.Bad {
 				res.Count("item:foreign-chain-id")
+			}
+			if it.MB > 0 {
+				res.Count("item:next-with-byte-budget")
 			}
 			if it.T == "submit" && it.B <= 0 {
 				res.Count("item:empty-submission")
@@ -1498,6 +1840,14 @@ func TestVerif(t *testing.T) {
 			}
 			if cr.orc.lowStart {
 				res.Count("history:start-with-bound-below-pending")
+			}
+			if cr.orc.wideRst {
+				res.Count("history:start-with-pending-acceptance-numbers-of-different-width")
+			}
+			for _, b := range []int{10, 16, 100, 256, 1000, 4096} {
+				if cr.orc.maxIdx >= b {
+					res.Count(fmt.Sprintf("history:acceptance-number-reached-%d", b))
+				}
 			}
 			for k, v := range cr.orc.starts {
 				res.Distribution[k] += v
@@ -1520,7 +1870,7 @@ func TestVerif(t *testing.T) {
 			sh := rp.History
 			if shrunk[sig] < 2 { // bin/check reports one replay per signature; shrinking the rest is wasted time
 				shrunk[sig]++
-				sh = vgen.Shrink(rp.History, func(h []Item) bool {
+				sh = shrinkHist(rp.History, 1500, func(h []Item) bool {
 					x := runCase(pool, rp.Max, h, rp.Legacy...)
 					return x.sig == sig
 				})
@@ -1548,6 +1898,9 @@ func TestVerif(t *testing.T) {
 		mod := fmt.Sprintf("Module C%d.\nDefinition c : qcase := {| qc_max := %s; qc_hist := %s;\n qc_outs := %s;\n qc_image := %s;\n qc_log := %s |}.\nEnd C%d.",
 			ji, vgen.N(uint64(rp.Max)), hc, vgen.List(outs), vgen.List(cr.image), vgen.List(cr.log), ji)
 		defsAll = append(defsAll, mod)
+		for _, k := range cr.keys {
+			noteKeySample(keySamples, k)
+		}
 		cases = append(cases, fmt.Sprintf("C%d.c", ji))
 		res.Replays[fmt.Sprint(ji)] = rp
 		if len(res.Samples) < 3 && len(rp.History) >= 6 && cr.orc != nil && cr.orc.accepted > 1 {
@@ -1556,11 +1909,21 @@ func TestVerif(t *testing.T) {
 		ji++
 	}
 	res.Distinct = len(distinct)
-	res.Rule = "sequential cases: pool of 2-5 batches (incl. one-empty-transaction, [ab] vs [a,b] vs [b,a]) submitted as fresh copies so equal contents recur; bound of the first process from {0,1,2,3,5,8,1000 (NewSequencer)}; THE BOUND IS A PARAMETER OF EVERY PROCESS START: in three cases of four every restart / crash recovery draws the new process's bound (30% unchanged, else unlimited / larger than bound and pending / equal to the number pending / smaller than the number pending (20%) / 1 / one of the usual bounds), one case in four opens with a burst of 2-7 submissions followed by a restart (or crash) whose new bound is smaller than the number of batches pending; one size-boundary case in three draws every start's bound from {unchanged,0,1,2,3,4}; the distribution entries start:* are measured against the oracle's pending count at each start; histories of 1..maxLen items over submit (8% foreign chain id, 14% nil/empty), next, restart (0-24% per case), crash inside submit/next with 0..2 writes surviving; every history is closed by next x (submits+1), restart, next; every 10th case = 2-5 concurrent submitters + one concurrent consumer (oracle only; every fourth of them with LARGE submissions of 2-3 transactions, 1.2-3.3 MB, bound from {0,2,3}, on the on-disk store); two cases in ten are size-boundary cases on the on-disk badger store: pool = 1-2 one-transaction batches + 1-2 LARGE batches (payload k*L+d, L from {1_500_000, 1 MiB, 2_000_000, 2 MiB, 1_000_000, random}, k 1..3, d from {-1, 0, +1, a few KB under / over, a quarter to three quarters of L over}; 2..5 transactions: equal parts, random cuts, one huge first / last, each just over L/2), bound from {0,1,2,3,4}, history = fill the queue so that 1..3 slots are free (or 0..2 small submissions), a large submission (30%: cut by a crash after 0..5 of its datastore writes), an aftermath (restart / next+restart / crash inside next / another large submission) and 0..6 random items; a rejected submission must leave the datastore image unchanged (oracle), a batch handed out must be a whole submission (oracle); every 10th case runs on a store pre-seeded with 1-2 records under the pre-repair bare-hash keys (oracle only: they must be handed out first, exactly once, and be deleted); non-trivial = at least 3 items and one accepted batch; distinct = distinct (first bound, keys, history with the bounds of its process starts) terms"
+	res.Rule = "sequential cases: pool of 2-5 batches (incl. one-empty-transaction, [ab] vs [a,b] vs [b,a]) submitted as fresh copies so equal contents recur; bound of the first process from {0,1,2,3,5,8,1000 (NewSequencer)}; THE BOUND IS A PARAMETER OF EVERY PROCESS START: in three cases of four every restart / crash recovery draws the new process's bound (30% unchanged, else unlimited / larger than bound and pending / equal to the number pending / smaller than the number pending (20%) / 1 / one of the usual bounds), one case in four opens with a burst of 2-7 submissions followed by a restart (or crash) whose new bound is smaller than the number of batches pending; one size-boundary case in three draws every start's bound from {unchanged,0,1,2,3,4}; THE CONSUMER'S BYTE BUDGET: in half of the sequential cases (a quarter: 25% of the hand-out requests, a quarter: 70%) GetNextBatchRequest.MaxBytes is set - 1 byte, the first transaction / one byte under / exactly / one byte over / a random part of the payload of a pool batch, a usual blob limit, 2^40 - and passed to the real GetNextBatch and to the model (item:next-with-byte-budget); the oracle follows the queue at transaction level: a hand-out that is part of a submission is a symptom, and a graver one found later (the remainder lost or overtaken, e.g. after a restart) is reported as after-partial-hand-out:*; LONG RUNS: every 20th case submits until the number of batches accepted since the store was last empty passes 10, 16 (six in ten), 100 or 256 (thorough: also 1000, 4096), keeping 0..11 batches pending on the way (bound from {0,1000,3,5,8,12}; one in four with a restart on the way), leaves 1-4 batches accepted below and 1-4 accepted at / above that number pending, then restarts (or dies inside a submit / next, one in three with a new bound) and goes on for 0..7 items (history:acceptance-number-reached-*, start:pending-acceptance-numbers-of-different-width are measured by the oracle's own count); the first 18 bytes of the real record keys are compared in Coq with Model/QueueKeys.v's key strings, one sample per distinct sequence number; the distribution entries start:* are measured against the oracle's pending count at each start; histories of 1..maxLen items over submit (8% foreign chain id, 14% nil/empty), next, restart (0-24% per case), crash inside submit/next with 0..2 writes surviving; every history is closed by next x (submits+1), restart, next; every 10th case = 2-5 concurrent submitters + one concurrent consumer (oracle only; every fourth of them with LARGE submissions of 2-3 transactions, 1.2-3.3 MB, bound from {0,2,3}, on the on-disk store); two cases in ten are size-boundary cases on the on-disk badger store: pool = 1-2 one-transaction batches + 1-2 LARGE batches (payload k*L+d, L from {1_500_000, 1 MiB, 2_000_000, 2 MiB, 1_000_000, random}, k 1..3, d from {-1, 0, +1, a few KB under / over, a quarter to three quarters of L over}; 2..5 transactions: equal parts, random cuts, one huge first / last, each just over L/2), bound from {0,1,2,3,4}, history = fill the queue so that 1..3 slots are free (or 0..2 small submissions), a large submission (30%: cut by a crash after 0..5 of its datastore writes), an aftermath (restart / next+restart / crash inside next / another large submission) and 0..6 random items; a rejected submission must leave the datastore image unchanged (oracle), a batch handed out must be a whole submission (oracle); every 10th case runs on a store pre-seeded with 1-2 records under the pre-repair bare-hash keys (oracle only: they must be handed out first, exactly once, and be deleted); non-trivial = at least 3 items and one accepted batch; distinct = distinct (first bound, keys, history with the bounds of its process starts) terms"
 	res.Cases = len(cases)
-	header := "From Coq Require Import NArith List Bool.\nFrom Verif Require Import Model.Queue Check.QueueCheck."
+	header := "From Coq Require Import NArith List Bool.\nFrom Verif Require Import Model.Queue Model.QueueBudget Check.QueueCheck."
 	path := filepath.Join(e.Out, "cases_C10.v")
-	if err := writeCases(path, header, defsAll, cases); err != nil {
+	var sqs []uint64
+	for sq := range keySamples {
+		sqs = append(sqs, sq)
+	}
+	sort.Slice(sqs, func(i, j int) bool { return sqs[i] < sqs[j] })
+	var samples []string
+	for _, sq := range sqs {
+		samples = append(samples, keySamples[sq])
+	}
+	res.Distribution["keys:distinct-sequence-numbers-compared-as-strings"] = len(samples)
+	if err := writeCases(path, header, defsAll, cases, samples); err != nil {
 		t.Fatal(err)
 	}
 	res.CaseFiles = []string{path}
@@ -1570,7 +1933,7 @@ func TestVerif(t *testing.T) {
 }
 
 // like vgen.WriteCases, without opening string_scope (the model has no strings)
-func writeCases(path, header string, defs, cases []string) error {
+func writeCases(path, header string, defs, cases, keySamples []string) error {
 	var sb strings.Builder
 	sb.WriteString(header)
 	sb.WriteString("\nImport ListNotations.\nOpen Scope list_scope.\n")
@@ -1594,7 +1957,8 @@ func writeCases(path, header string, defs, cases []string) error {
 		all = strings.Join(names, " ++ ")
 	}
 	sb.WriteString("Definition cases : list qcase := " + all + ".\n")
-	sb.WriteString("Definition M := Eval vm_compute in mismatches cases.\nPrint M.\n")
+	sb.WriteString("Definition key_samples : list (N * list N) := [\n  " + strings.Join(keySamples, ";\n  ") + "\n].\n")
+	sb.WriteString("Definition M := Eval vm_compute in mismatches cases ++ key_mismatches key_samples.\nPrint M.\n")
 	sb.WriteString("Lemma cases_agree : M = [].\nProof. reflexivity. Qed.\n")
 	return os.WriteFile(path, []byte(sb.String()), 0o644)
 }
